@@ -219,6 +219,28 @@ def apply_body_rules(rw, src, f, body_open, body_close, loops, cfg):
                     else:
                         outs.append(txt)
                 rw.replace(q, cl + 1, "{ " + " ".join(lets) + f" {name}(" + ", ".join(outs) + ") }", "R31-bind-self-arguments")
+    # R32: `for .. { A; if C { continue; } B }`  ->  `for .. { A; if C { } else { B } }`  (Verus: "for-loops do not yet support
+    # continue"; the two forms run the same statements in the same order)
+    if f.opts.get("continue_to_else"):
+        for lp in loops:
+            if lp["kind"] != "for":
+                continue
+            bo, bc = lp["body_open"], lp["body_close"]
+            q = bo + 1
+            while q < bc:
+                tx = toks[q].text
+                if tx in ("(", "[", "{"):
+                    # an `if C {` at depth 0 whose block is exactly `continue ;`
+                    if tx == "{" and src.pairs[q] == q + 3 and toks[q + 1].text == "continue" and toks[q + 2].text == ";":
+                        cl = src.pairs[q]
+                        rw.replace(q + 1, q + 3, "", "R32-continue-to-else")
+                        rw.insert_after(cl, " else {", "R32-continue-to-else")
+                        rw.insert(bc, "} ", "R32-continue-to-else")
+                        q = cl + 1
+                        continue
+                    q = src.pairs[q] + 1
+                    continue
+                q += 1
     # R22c: `v += e;` on a named shim vector / matrix -> `v.vx_add_assign(e);`  (AddAssign spelled as a call)
     for name in f.opts.get("add_assign", ()):
         for q in range(body_open + 1, body_close):
